@@ -954,3 +954,25 @@ SPECFUNS['contains'] = lambda ex, st, s, t: VBool(z3.Contains(s.term, t.term))
 SPECFUNS['indexof'] = lambda ex, st, s, t: VInt(z3.IndexOf(s.term, t.term, 0))
 SPECFUNS['str_of_int'] = lambda ex, st, i: VStr(int_to_str(st, i.term))
 SPECFUNS['ci_equal'] = lambda ex, st, s, lit: VBool(z3.InRe(s.term, ci_equal_re(lit.term.as_string())))
+
+
+# ---- posixpath -------------------------------------------------------------------------------------------------
+def m_dirname(ex, st, node, p):
+    """posixpath.dirname: i = p.rfind('/') + 1; head = p[:i]; if head and head != '/'*len(head): head = head.rstrip('/')"""
+    sep = z3.StringVal('/')
+    has, h, t = cut(st, p.term, sep, first=False)
+    head0 = z3.If(has, z3.Concat(h, sep), z3.StringVal(''))
+    only_slashes = z3.InRe(head0, z3.Star(z3.Re('/')))
+    stripped = str_strip(st, head0, '/', left=False, right=True)
+    return VStr(z3.If(only_slashes, head0, stripped), p.ty)
+
+
+def m_basename(ex, st, node, p):
+    sep = z3.StringVal('/')
+    has, h, t = cut(st, p.term, sep, first=False)
+    return VStr(z3.If(has, t, p.term), p.ty)
+
+
+for _m in ('posixpath', 'os.path'):
+    MODFUNCS[_m + '.dirname'] = m_dirname
+    MODFUNCS[_m + '.basename'] = m_basename
